@@ -901,7 +901,7 @@ def model_blockat(mexe, filebytes, data, blocks, k):
     for n, (chk, cfo, ufo, usz, tot) in enumerate(blocks):
         # output space: exactly the Block's size / what the front-to-back decoder has / plenty
         cap = [usz, (1 << 62) - ufo, 1 << 62][(n + k) % 3]
-        ents.append("%d,%d,%d" % (chk, cfo, cap))
+        ents.append("%d,%d,%d,%d" % (chk, cfo, cap, tot))
     rc, out, err = vlib.run_lines([mexe], ["blockat %s %s" % (";".join(ents), R.hexs(filebytes))], timeout=900)
     if rc == 124:
         return 0, None
@@ -1159,7 +1159,7 @@ def run(ctx):
 
 def replay(ctx, path):
     import replaylib
-    r = replaylib.load("C13", path)
+    r = replaylib.load(ctx, path)
     if "ops" not in r and "realfile_hex" not in r:
         return replaylib.obligations("C13", run, r, path)
     exe = build_all(ctx)
